@@ -111,3 +111,10 @@ Proof. vm_compute. reflexivity. Qed.
 Lemma h3_write_request_header_go_as_modelled :
   src_h3_WriteRequestHeader = bs "{ buf := &bytes.Buffer{} if err := w.writeHeaders(buf, req, gzip, dumps); err != nil { return err } _, err := str.Write(buf.Bytes()) return err }".
 Proof. reflexivity. Qed.
+
+(* round 7 *)
+(* transport.go persistConn.roundTrip: Connection: close is added under DisableKeepAlives unless the
+   request asks for it itself - reqWantsClose looks at the caller's Connection header (conn_close_kv) *)
+Lemma h1_conn_close_cond_go_as_modelled :
+  src_h1_conn_close_cond = bs "pc.t.DisableKeepAlives && !reqWantsClose(req.Request) && !isProtocolSwitchHeader(req.Header)".
+Proof. reflexivity. Qed.
